@@ -53,6 +53,12 @@ func normalize(c *lcase) {
 		if d.Kind != 1 {
 			d.NoneKind = 0
 		}
+		if d.AltLevel == "skip" {
+			d.AltOv = nil
+		}
+		if d.AltLevel == "" || d.Kind != 2 {
+			d.UseAlt = false
+		}
 	}
 	if c.Entry == "NVerify" {
 		base := okSc()
@@ -739,6 +745,58 @@ func genLattice(a *Args, r *Rng, emit func(c *lcase), history func(base lcase, s
 			history(lcase{Fam: "history", OCI: doc(2, l), Blob: doc(2, l), PM: pmOK("TI", "Rev"), Impl: implCfg{Kind: 1}, Sc: b}, script)
 		}
 	}
+	// ---- same name, two namespaces: OCI statement "p" and blob statement "p" differ in skip vs non-skip
+	//      level (and in whether the plugin's revocation capability runs); Verify and VerifyBlob alternate ----
+	pairs := [][2]levelSpec{{strict, {"skip", nil}}, {{"skip", nil}, strict}, {customLevels[0], strict}, {strict, customLevels[0]},
+		{{"audit", nil}, strict}, {{"permissive", nil}, {"skip", nil}}, {{"skip", nil}, customLevels[1]}}
+	seqs := [][]string{{"Verify", "VerifyBlob"}, {"VerifyBlob", "Verify"}, {"Verify", "VerifyBlob", "Verify"}, {"VerifyBlob", "Verify", "VerifyBlob"},
+		{"SkipVerify", "NVerifyBlob", "NVerify", "VerifyBlob", "SkipVerify", "Verify"}, {"NVerifyBlob", "Verify", "NVerify", "VerifyBlob"}}
+	for pi, pr := range pairs {
+		for qi, seq := range seqs {
+			for k := 0; k < 3; k++ {
+				if !thorough && (pi+qi+k)%2 == 1 && qi >= 4 {
+					continue
+				}
+				b := okSc()
+				switch k {
+				case 1:
+					b.PAttr, b.Crit, b.RevV = 2, true, 2 // the plugin reports the certificate revoked
+				case 2:
+					b.Auth = 2 // untrusted: rejected where authenticity is enforced, reported where it is logged
+				}
+				base := lcase{Fam: "same-name", OCI: doc(2, pr[0]), Blob: doc(2, pr[1]), PM: pmOK("TI", "Rev"), Impl: implCfg{Kind: 1}, Sc: b}
+				base.Blob.SameName = true
+				var steps []func(c *lcase)
+				for _, en := range seq {
+					steps = append(steps, plain(en))
+				}
+				history(base, steps)
+			}
+		}
+	}
+	// two OCI statements with different levels on one verifier, addressed alternately
+	alt := func(entry string, use bool) func(c *lcase) {
+		return func(c *lcase) { c.OCI.UseAlt = use; plain(entry)(c) }
+	}
+	for pi, pr := range pairs[:5] {
+		for k := 0; k < 3; k++ {
+			b := okSc()
+			switch k {
+			case 1:
+				b.PAttr, b.Crit, b.RevV = 2, true, 2
+			case 2:
+				b.Auth = 2
+			}
+			base := lcase{Fam: "same-name", OCI: doc(2, pr[0]), Blob: doc(2, strict), PM: pmOK("TI", "Rev"), Impl: implCfg{Kind: 1}, Sc: b}
+			base.OCI.AltLevel, base.OCI.AltOv = pr[1].Level, pr[1].Ov
+			script := []func(c *lcase){alt("Verify", false), alt("Verify", true), alt("Verify", false)}
+			if (pi+k)%2 == 0 {
+				script = []func(c *lcase){alt("Verify", true), alt("SkipVerify", false), alt("SkipVerify", true), alt("NVerify", false), alt("NVerify", true), alt("Verify", false)}
+			}
+			history(base, script)
+		}
+	}
+
 	// random histories
 	nHist := 25
 	if thorough {
